@@ -1,5 +1,6 @@
 import SqlObjVerif.Model.DdlSyn
 import SqlObjVerif.Model.DdlStyle
+import SqlObjVerif.Model.DdlCat
 /-!
 # C14 — executable model of schema generation (`col.py`, `dbconnection.py`, the seven connection classes)
 
@@ -271,5 +272,24 @@ def joinTableSQL (T : Tables) (d : Dialect) (j : Join) : Str :=
 
 def joinTablesSQL (T : Tables) (d : Dialect) (decl : Decl) : Str :=
   joinWith (lit ";\n") (decl.joins.map (joinTableSQL T d))
+
+/-! ### which side of a many-to-many join owns (creates / drops) the link table -/
+
+structure ClsNames where
+  cls : Str
+  table : Str
+deriving DecidableEq, Repr
+
+def LinkKey.of : LinkKey → ClsNames → Str
+  | .className, c => c.cls
+  | .tableName, c => c.table
+
+/-- `if join.soClass.<key> > join.otherClass.<key>: continue` -/
+def sideActs (k : LinkKey) (self other : ClsNames) : Bool := createsLink (k.of self) (k.of other)
+
+/-- state of one link table under `X.createTable()` / `X.dropTable()` of the two classes of a pair that
+    both declare the join (`ifNotExists` / `ifExists` variants: no error, same effect) -/
+def linkAfterCreate (ck : LinkKey) (x other : ClsNames) (present : Bool) : Bool := present || sideActs ck x other
+def linkAfterDrop (dk : LinkKey) (x other : ClsNames) (present : Bool) : Bool := present && !sideActs dk x other
 
 end SqlObjVerif.Ddl
